@@ -59,7 +59,7 @@ pub fn cases_for(prop: &str, tier: &str, r: &mut Rng) -> Vec<Case> {
 }
 
 pub fn probe_budget(prop: &str, tier: &str) -> usize {
-    let q = match prop { "C01" => 1500, "C03" | "C04" => 2500, "C06" | "C07" => 400, "C12" => 1500, "C16" | "C17" | "C19" => 3000, "C15" => 3000, "C20" => 1500, _ => 1200 };
+    let q = match prop { "C01" => 1500, "C03" | "C04" => 2500, "C06" | "C07" => 400, "C10" => 4000, "C12" => 1500, "C16" | "C17" | "C19" => 3000, "C15" => 3000, "C20" => 1500, _ => 1200 };
     if tier == "thorough" { q * 25 } else { q }
 }
 
